@@ -69,7 +69,10 @@ func (h HTLC) Validate() error {
 	if h.ExpirationHeight == 0 {
 		return errorsmod.Wrapf(ErrInvalidExpirationHeight, "expire height cannot be 0")
 	}
-	if h.Timestamp == 0 {
+	// a plain HTLC may be created without a timestamp (MsgCreateHTLC.ValidateBasic and
+	// CreateHTLC accept 0; the hash lock is then the hash of the secret alone), only
+	// cross-chain transfers require one
+	if h.Transfer && h.Timestamp == 0 {
 		return errorsmod.Wrapf(ErrInvalidTimestamp, "timestamp cannot be 0")
 	}
 	if err := ValidateAmount(h.Transfer, h.Amount); err != nil {
